@@ -188,9 +188,21 @@ def scOk (sp : Space) (k : OpK) (xs : List Rat) (pat : Option String) : Bool :=
   if sp.pattern then pat.isSome && (k == .scn || k == .SCN)
   else pat.isNone && xs.length == sp.n
 
+/-- ISO 32000-1 table 60: painting operator -> (close first, stroke, fill, even-odd rule). -/
+def paintFlags : OpK → Option (Bool × Bool × Bool × Bool)
+  | .S => some (false, true, false, false)
+  | .s => some (true, true, false, false)
+  | .f => some (false, false, true, false)
+  | .F => some (false, false, true, false)
+  | .fstar => some (false, false, true, true)
+  | .B => some (false, true, true, false)
+  | .Bstar => some (false, true, true, true)
+  | .b => some (true, true, true, false)
+  | .bstar => some (true, true, true, true)
+  | _ => none
+
 def paintOk (k : OpK) (close stroke fill evenodd : Bool) : Bool :=
-  paintOps.lookup k.name == some (close, stroke, fill, evenodd) &&
-    [OpK.S, .s, .f, .F, .fstar, .B, .Bstar, .b, .bstar].contains k
+  paintFlags k == some (close, stroke, fill, evenodd)
 
 def noopOk (k : OpK) (o : Operand) : Bool :=
   match k, o with
@@ -288,7 +300,7 @@ def parseOp (k : OpK) (args : List Operand) : Option SOp :=
   | .h, [] => some .h
   | .re, [.num x, .num y, .num w, .num h] => some (.re x y w h)
   | .S, [] | .s, [] | .f, [] | .F, [] | .fstar, [] | .B, [] | .Bstar, [] | .b, [] | .bstar, [] =>
-    match paintOps.lookup k.name with
+    match paintFlags k with
     | some (c, s, f, e) => some (.paint k c s f e)
     | none => none
   | .n, [] => some .n
